@@ -112,9 +112,16 @@ theorem atIndex_lt (s : Str) (i : Nat) (h : atIndex s = some i) : i < s.length :
         simp [hc] at h; subst h
         have := ih j hc; simp; omega
 
+/-- the dictionary lookup as `writeString` uses it: the first three primary entries are markers (empty list, stream start,
+    stream end), not string tokens — a string equal to one of them is written like any other non-dictionary string -/
+def Dict.lookup (d : Dict) (s : Str) : Option (Nat × Bool) :=
+  match d.getIndex s with
+  | some (i, false) => if i < 3 then none else some (i, false)
+  | r => r
+
 /-- `writeString` (with `writeJid` inlined). -/
 def writeString (d : Dict) (s : Str) (packed : Bool) : Bytes :=
-  match d.getIndex s with
+  match d.lookup s with
   | some (i, false) => [i]
   | some (i, true) => [236 + i / 256, i % 256]
   | none =>
